@@ -93,7 +93,8 @@ macro_rules! dispatch {
 pub fn run(scn: &str, out: &mut dyn Write) {
     let text = std::fs::read_to_string(scn).expect("scn");
     writeln!(out, "{{\"ev\":\"case_start\",\"case\":\"hex\",\"prop\":\"C14\",\"ety\":\"plain\",\"rec\":false}}").unwrap();
-    for line in text.lines() {
+    for (row, line) in text.lines().enumerate() {
+        crate::ROW.store(row, std::sync::atomic::Ordering::Relaxed);
         // scenario line: n prec upper pat   (whitespace separated)
         let f: Vec<&str> = line.split_whitespace().collect();
         if f.len() < 4 {
